@@ -138,7 +138,8 @@ def main():
                         verdict = c.compare(x, io, mo)
                     except Exception as e:
                         verdict = False; notes.append("compare raised %r" % (e,))
-                    differ = verdict is False
+                    differ = verdict is False or isinstance(verdict, str)
+                    if isinstance(verdict, str) and len(notes) < 20: notes.append("%s: %s" % (c.name, verdict))
                     if verdict is None: nt += 1
                 else:
                     differ = io != mo
